@@ -180,6 +180,15 @@ Definition http_wire (cfg : scfg) (m : cmsg) : res bytes :=
   addrs <- add_id (s_p2p cfg) (c_addrs m) ;;
   enc (Msg (c_cid m) (Some (map Some addrs)) (override_extra cfg (c_extra m)) (c_orig m)).
 
+(* announce.Send(ctx, c, addrs, httpSender) (announce/sender.go): nothing is sent for
+   an undefined CID; otherwise a message with just the CID and the given multiaddrs
+   (all of known protocols, they were parsed) goes to the sender *)
+Definition announce_send (cfg : scfg) (c : option cid) (addrs : list bytes) : option (res bytes) :=
+  match c with
+  | None => None
+  | Some _ => Some (http_wire cfg (CMsg c (map (fun a => (a, AKnown)) addrs) None []))
+  end.
+
 (* data published by p2psender.Send (addresses untouched) *)
 Definition p2p_wire (cfg : scfg) (m : msg) : res bytes :=
   enc (Msg (m_cid m) (m_addrs m) (override_extra cfg (m_extra m)) (m_orig m)).
@@ -282,6 +291,16 @@ Definition p2p_case_ok (c : scfg * msg * obs bytes) : bool :=
   match p2p_wire cfg m, o with
   | Ok x, OOk y => bytes_eqb x y
   | Err _, OErr _ => true
+  | _, _ => false
+  end.
+
+(* announce.Send through an httpsender posted this body / failed / posted nothing *)
+Definition asend_case_ok (c : scfg * option cid * list bytes * option (obs bytes)) : bool :=
+  let '(cfg, oc, addrs, o) := c in
+  match announce_send cfg oc addrs, o with
+  | None, None => true
+  | Some (Ok x), Some (OOk y) => bytes_eqb x y
+  | Some (Err _), Some (OErr _) => true
   | _, _ => false
   end.
 
